@@ -155,3 +155,45 @@ func c13BackupOwnersPruned(r *core.Run) {
 	}
 	r.Floor(rule, cnt, 2)
 }
+
+// fragmentStatsTruthful: the coordinator prunes a previous owner from a partition's owners
+// list when that member reports that it holds nothing (LENGTHOFPART -> Partition.Length ->
+// fragment.Stats), and the balancer skips fragments that report empty. The report must
+// therefore be the storage engine's own statistics under the fragment's read lock — never
+// a made-up "empty" because the fragment is busy (a transfer in flight): the owner would be
+// pruned while it still holds tables, reads miss those keys and a delete does not reach
+// them.
+func fragmentStatsTruthful(r *core.Run) {
+	const rule = "fragment-stats-truthful"
+	fn := r.Need(rule, dmapPkg+".(*fragment).Stats")
+	if fn == nil {
+		return
+	}
+	f := fn.SSA
+	cnt := 0
+	n := counter{}
+	for _, ret := range core.Returns(f) {
+		cnt++
+		v := core.ResultValue(ret, 0)
+		c, ok := v.(*ssa.Call)
+		good := ok && engineCall("Stats")(c)
+		r.Check(good, rule, n.next(fn.Name+" result"), site(r, instrPos(ret)),
+			"the fragment reports the storage engine's statistics",
+			"the fragment can report statistics that are not the storage engine's (for example an empty record when the lock is busy): a previous owner that still holds data is pruned from the owners list, its keys become unreadable and undeletable until the fragment moves")
+	}
+	blocking := len(findInstrs(f, false, func(in ssa.Instruction) bool {
+		op, ok := isFragmentMutexOp2(in)
+		return ok && op == "RLock"
+	})) > 0
+	r.Check(blocking, rule, fn.Name+" waits for the lock", site(r, f.Pos()),
+		"the statistics are read under the fragment's (blocking) read lock", "the statistics are not read under a blocking read lock of the fragment")
+	r.Floor(rule, cnt, 1)
+}
+
+func isFragmentMutexOp2(in ssa.Instruction) (string, bool) {
+	c, ok := in.(ssa.CallInstruction)
+	if !ok {
+		return "", false
+	}
+	return isFragmentMutexOp(c)
+}
